@@ -825,7 +825,12 @@ func (i *interpreter) callBuiltin(caller *frame, callpos token.Pos, fn *ssa.Buil
 			return p.mkLen(x)
 		case array:
 			return int64(len(x))
+		case byteArray:
+			return x.n
 		case *value:
+			if ba, ok := (*x).(byteArray); ok {
+				return ba.n
+			}
 			return int64(len((*x).(array)))
 		case []value:
 			return int64(len(x))
@@ -852,7 +857,12 @@ func (i *interpreter) callBuiltin(caller *frame, callpos token.Pos, fn *ssa.Buil
 		switch x := args[0].(type) {
 		case array:
 			return int64(cap(x))
+		case byteArray:
+			return x.n
 		case *value:
+			if ba, ok := (*x).(byteArray); ok {
+				return ba.n
+			}
 			return int64(cap((*x).(array)))
 		case []value:
 			return int64(cap(x))
@@ -915,11 +925,12 @@ func (i *interpreter) makeSlice(t types.Type, ln, cp value) value {
 	if isByteSliceType(t) {
 		// fresh zero bytes; only the length is known symbolically
 		var content value
-		if c, ok := cp.(int64); ok && c <= 4096 {
+		if c, ok := cp.(int64); ok && c <= 64 {
 			content = string(make([]byte, c))
 		} else {
 			z := i.path.freshVar("zeros", SStr)
 			i.path.assume(i.path.mkIntCmp("=", i.path.mkLen(z), cp))
+			z.ln = cp
 			content = z
 		}
 		return &byteSlice{arr: &byteArr{content: content}, off: int64(0), len: ln, cap: cp}
@@ -1007,6 +1018,9 @@ func (i *interpreter) slice(instr *ssa.Slice, x, lo, hi, max value) value {
 		if x == nil {
 			rtPanic("nil pointer dereference (slice of nil array pointer)")
 		}
+		if ba, ok := (*x).(byteArray); ok {
+			return i.slice(instr, &byteSlice{arr: ba.arr, off: int64(0), len: ba.n, cap: ba.n}, lo, hi, max)
+		}
 		a := (*x).(array)
 		l := int64(0)
 		if lo != nil {
@@ -1023,9 +1037,6 @@ func (i *interpreter) slice(instr *ssa.Slice, x, lo, hi, max value) value {
 		if l < 0 || l > h || h > m || m > int64(len(a)) {
 			rtPanic("slice bounds out of range")
 		}
-		if isByteArrayType(mustDeref(instr.X.Type())) {
-			unsup("slicing a byte array (use []byte)")
-		}
 		return []value(a)[l:h:m]
 	}
 	i.checkPoison(x, "slice")
@@ -1041,6 +1052,10 @@ func (i *interpreter) indexAddr(x, idx value) value {
 	case *value:
 		if x == nil {
 			rtPanic("invalid memory address or nil pointer dereference")
+		}
+		if ba, ok := (*x).(byteArray); ok {
+			i.require(mkAnd(p.mkIntCmp("<=", int64(0), idx), p.mkIntCmp("<", idx, ba.n)), "index out of range")
+			return &bytePtr{arr: ba.arr, idx: idx}
 		}
 		a, ok := (*x).(array)
 		if !ok {
@@ -1088,6 +1103,9 @@ func (i *interpreter) index(x, idx value) value {
 	switch x := x.(type) {
 	case array:
 		return x[i.indexConcrete(idx, len(x))]
+	case byteArray:
+		i.require(mkAnd(p.mkIntCmp("<=", int64(0), idx), p.mkIntCmp("<", idx, x.n)), "index out of range")
+		return p.mkAt(x.arr.content, idx)
 	case string, *Sym:
 		i.require(mkAnd(p.mkIntCmp("<=", int64(0), idx), p.mkIntCmp("<", idx, p.mkLen(x))), "index out of range")
 		return p.mkAt(x, idx)
